@@ -409,7 +409,7 @@ theorem filter_own_type (ct : String) (cfs : List (String × NdArr)) (c : Nat) :
 
 theorem read_cells (a0 b0 c0 : Int) (ex ey ez : Nat) (g : GridGeom) (pfs : List PointField)
     (cfs : List (String × NdArr)) (hg : gridHyp [ex, ey, ez] g pfs cfs = true) :
-    ∃ F rows, readGrid [a0, a0 + ex, b0, b0 + ey, c0, c0 + ez] g pfs cfs = some F ∧
+    ∃ F rows, readGridCore [a0, a0 + ex, b0, b0 + ey, c0, c0 + ez] g pfs cfs = some F ∧
       gridConnectivity g.kind [ex, ey, ez] (gridCellType g.kind [ex, ey, ez]) = some rows ∧
       F.mesh = ⟨3, gridPoints [ex, ey, ez] g, [(gridCellType g.kind [ex, ey, ez], rows)]⟩ ∧ F.pointFields = pfs ∧
       F.cellContent.map normCell = gridCellContent [ex, ey, ez] g cfs := by
@@ -427,7 +427,7 @@ theorem read_cells (a0 b0 c0 : Int) (ex ey ez : Nat) (g : GridGeom) (pfs : List 
     simp [gridMesh, hctor, hrows]
   refine ⟨⟨⟨3, gridPoints [ex, ey, ez] g, [(gridCellType g.kind [ex, ey, ez], rows)]⟩, pfs,
     cfs.map fun cf => ⟨cf.1, gridCellType g.kind [ex, ey, ez], cf.2⟩⟩, rows, ?_, hrows, rfl, rfl, ?_⟩
-  · simp only [readGrid, hcells.1, hm]
+  · simp only [readGridCore, hcells.1, hm]
     have e1 : (cfs.any fun cf => cf.2.shape.head? != some (readerNumCells [ex, ey, ez])) = false := by
       rw [hcells.2.1, List.any_eq_false]
       intro cf hcfm
@@ -495,7 +495,7 @@ theorem lattice_connected (k : GridKind) (ex ey ez : Nat) (hpos : 0 < ex ∨ 0 <
 
 theorem read_points (a0 b0 c0 : Int) (ex ey ez : Nat) (g : GridGeom) (pfs : List PointField)
     (cfs : List (String × NdArr)) (hg : gridHyp [ex, ey, ez] g pfs cfs = true) (F : MeshFields)
-    (hF : readGrid [a0, a0 + ex, b0, b0 + ey, c0, c0 + ez] g pfs cfs = some F) :
+    (hF : readGridCore [a0, a0 + ex, b0, b0 + ey, c0, c0 + ez] g pfs cfs = some F) :
     F.pointContent = gridPointContent [ex, ey, ez] g pfs := by
   have hg0 := gridHyp_nofields _ g pfs cfs hg
   have hpos := gridHyp_pos ex ey ez g pfs cfs hg
@@ -584,4 +584,57 @@ theorem expand_length (ext loc : List Nat) : (expand ext loc).length = ext.lengt
     simp only [expand]
     split <;> simp [ih]
 
+/-! ### extent lower ends: the origin shift of `VTIReader` -/
+
+theorem shiftGeom_kind (lo : List Int) (g : GridGeom) : (shiftGeom lo g).kind = g.kind := by
+  cases g <;> rfl
+
+theorem gridCtorOk_shift (ext : List Nat) (lo : List Int) (g : GridGeom) (h : gridCtorOk ext g = true) :
+    gridCtorOk ext (shiftGeom lo g) = true := by
+  cases g with
+  | image U o b s =>
+    simp only [gridCtorOk, Bool.and_eq_true, beq_iff_eq] at h
+    simp [shiftGeom, gridCtorOk, imagePointZ, h.1.1.1.1, h.1.1.1.2, h.1.1.2, h.1.2, h.2]
+  | rect ords => exact h
+  | struct pts => exact h
+
+theorem gridHyp_shift (ext : List Nat) (lo : List Int) (g : GridGeom) (pfs : List PointField)
+    (cfs : List (String × NdArr)) (h : gridHyp ext g pfs cfs = true) :
+    gridHyp ext (shiftGeom lo g) pfs cfs = true := by
+  cases g with
+  | image U o b s =>
+    simp only [gridHyp, Bool.and_eq_true] at h ⊢
+    exact ⟨⟨⟨⟨h.1.1.1.1, gridCtorOk_shift ext lo _ h.1.1.1.2⟩, by simp [shiftGeom]⟩, h.1.2⟩, h.2⟩
+  | rect ords => exact h
+  | struct pts => exact h
+
+theorem mulU_add (U : Nat) (a x y : Int) (h : mulUExact U a x = true) :
+    mulU U a (x + y) = mulU U a x + mulU U a y := by
+  simp only [mulUExact, beq_iff_eq] at h
+  simp only [mulU, Int.mul_add]
+  exact Int.add_ediv_of_dvd_left (Int.dvd_of_emod_eq_zero h)
+
+/-- VTK's extent semantics = the geometry the (fixed) reader hands to `ImageMesh` -/
+theorem geomAtLo_shift (lo : List Int) (ext : List Nat) (g : GridGeom) (pos : List Nat)
+    (hc : gridCtorOk ext g = true) (hx : shiftExact lo g = true) (hl : lo.length = 3) (hp : pos.length = 3) :
+    geomAtLo lo ext g pos = geomAt ext (shiftGeom lo g) pos := by
+  cases g with
+  | rect ords => rfl
+  | struct pts => rfl
+  | image U o b s =>
+    simp only [gridCtorOk, Bool.and_eq_true, beq_iff_eq, List.all_eq_true] at hc
+    obtain ⟨⟨⟨⟨_, ho⟩, hs⟩, hb⟩, hrows⟩ := hc
+    match o, ho, s, hs, b, hb, lo, hl, pos, hp with
+    | [o0, o1, o2], _, [s0, s1, s2], _, [r0, r1, r2], _, [l0, l1, l2], _, [p0, p1, p2], _ =>
+      have h0 := hrows r0 (by simp); have h1 := hrows r1 (by simp); have h2 := hrows r2 (by simp)
+      match r0, h0, r1, h1, r2, h2 with
+      | [a0, a1, a2], _, [b0, b1, b2], _, [c0, c1, c2], _ =>
+        simp only [shiftExact, imagePointExact, List.zipWith, List.all_cons, List.all_nil, Bool.and_true,
+          Bool.and_eq_true, id] at hx
+        simp only [geomAtLo, geomAt, shiftGeom, imagePoint, imagePointZ, List.zipWith, List.map, dotU,
+          Int.mul_add, mulU_add _ _ _ _ hx.1.1, mulU_add _ _ _ _ hx.1.2.1, mulU_add _ _ _ _ hx.1.2.2,
+          mulU_add _ _ _ _ hx.2.1.1, mulU_add _ _ _ _ hx.2.1.2.1, mulU_add _ _ _ _ hx.2.1.2.2,
+          mulU_add _ _ _ _ hx.2.2.1, mulU_add _ _ _ _ hx.2.2.2.1, mulU_add _ _ _ _ hx.2.2.2.2]
+        simp only [List.cons.injEq, and_true]
+        refine ⟨?_, ?_, ?_⟩ <;> omega
 end Fc.C07
